@@ -366,6 +366,13 @@ def ctor_case(ctx, rnd, i):
         if any(n is None for n, _ in kw):
             raise TypeError("mapping argument")
         bound = inspect.signature(cls).bind(*pos, **dict(kw))
+        # python's constructor binds the fields the call leaves out to their defaults
+        given = set(bound.arguments)
+        bound.apply_defaults()
+        for k in list(bound.arguments):
+            if k not in given:
+                bound.arguments[k] = ast.Constant(value=bound.arguments[k])
+                ctx.count("ctor-fields-left-to-their-default")
         expect_error = False
     except TypeError:
         expect_error = True
